@@ -21,7 +21,7 @@ for p in props:
     fx = sorted(set(re.findall(r"property=%s (\w+)" % pid, " ".join(fixed))))
     nfx = len([x for x in fixed if "property=%s " % pid in x])
     print("| %s | %d (%d) | %d / %d / %.0f s | %s | %d finding(s): %s |" % (pid, len(ths), len(ref), ev["coverage"]["evaluations"],
-          ev["coverage"]["traces_validated_against_impl"], ev["wall_s"], ", ".join("`%s`" % k for k in kf) or "—", nfx, " ".join(fx) or "—"))
+          ev["coverage"]["traces_validated_against_impl"], ev["wall_s"], ", ".join("`%s`" % k.replace("|", "\\|") for k in kf) or "—", nfx, " ".join(fx) or "—"))
 print()
 print("| seeded change | property / clause | what it needs to manifest | result of `./check <prop> quick` |")
 print("|---|---|---|---|")
